@@ -72,6 +72,16 @@ def model_phase(c, tier):
             f.write(json.dumps({"text": d["text"], "expect": "accept"}) + "\n")
         for x in cases[::37] + fcases[(c.seed % 11)::11]:
             f.write(json.dumps({"text": x["text"], "expect": "accept"}) + "\n")
+        # every selector kind and spelling of Grammar.tla (one sentence in six, rotating with the seed; the boundary family always)
+        gpath = os.path.join(vlib.WORK, "%s_grammar.ndjson" % c.pid.lower())
+        vlib.tlc_ok("Gen_Grammar", env={"OUT": gpath}, heap="8g")
+        ng = 0
+        for i, l in enumerate(open(gpath)):
+            g = json.loads(l)
+            if g.get("expect") == "accept" and (g.get("family") == "edge" or (i + c.seed) % 6 == 0):
+                f.write(json.dumps({"text": g["text"], "expect": "accept"}) + "\n")
+                ng += 1
+        c.setv("grammar_sentences_normalised", ng)
     return extra, cases
 
 
